@@ -179,7 +179,7 @@ WorkingF(I, t)   == SchedLeafF(I, t) /\ ~Completed(I, t)
 AllForwardClauses(I, X) ==
     /\ \A t \in Tasks(I) :
         /\ FreeStartF(I, t) => C02_NotBefore(I, X, t)
-        /\ (IsLeaf(I, t) /\ IsMs(I, t) /\ ~StartFixed(I, t) /\ ~EndFixed(I, t)) => C02_Milestone(I, X, t)
+        /\ (IsLeaf(I, t) /\ IsMs(I, t)) => C02_Milestone(I, X, t)
         /\ WorkingF(I, t) => C04_Work(I, X, t) /\ C04_Dates(I, X, t)
         /\ ~WorkingF(I, t) => C04_NoRows(I, X, t)
         /\ SchedLeafF(I, t) => C04_FixedKept(I, X, t)
